@@ -58,6 +58,9 @@ func (r *vSlotRun) ev(e, k string, n, m int, err string) {
 	if a := r.s.lookup(vGID()); a != nil {
 		g = a.name
 	}
+	if g != "env" && r.s.dead() {
+		return // released after the scheduler stopped: not part of the recorded execution
+	}
 	r.mu.Lock()
 	r.out = append(r.out, vOutEvent{E: e, G: g, K: k, N: n, M: m, Err: err})
 	if e == "SlotFree" && n == r.aSlot {
